@@ -43,7 +43,15 @@ func runDomains(t *testing.T, rc *RunCtx) {
 	ledger := NewLedger()
 	domClass := func() ([]byte, string) {
 		u := ch.U64()
-		switch ch.Pick(8, 0) {
+		switch ch.Pick(9, 0) {
+		case 8: // a foreign type whose later bytes contain the attester (or a slashable-looking) type pattern
+			d := MkDomain([4]byte{byte([]int{0, 4, 2, 3, 7, 0}[ch.Pick(6, 0)]), 0, 0, byte(ch.Pick(2, 0))}, u)
+			off := 1 + ch.Pick(27, 0)
+			copy(d[off:], []byte{1, 0, 0, 0})
+			if domType(d) == DomAttester {
+				d[0] = 7
+			}
+			return d, "embedded-attester-pattern"
 		case 0:
 			return MkDomain(DomAttester, u), "attester"
 		case 1:
